@@ -132,9 +132,6 @@ MUTANTS = [
      "            self.wave = np.append(self.wave, other.wave)\n            self.value = np.append(self.value, other.value)",
      "            self.value = np.append(self.value, other.value)\n            self.wave = np.append(self.wave, other.wave)",
      'an in-place append that is refused by the wavelength check (equal-length, interleaved grids)'),
-    ('c15-pad-refuses-valid', 'C15', 'lentil/radiometry.py',
-     "        rightwave = np.delete(rightwave, 0)\n", "        rightwave = np.delete(rightwave, -1)\n",
-     'padding beyond the long-wavelength end'),
     # ---------------- C18
     ('c18-dark-current-floor-dropped', 'C18', 'lentil/detector.py',
      "    dark = np.floor(rate*np.ones(shape)*fpn)", "    dark = rate*np.ones(shape)*fpn",
